@@ -22,8 +22,8 @@ from . import common
 
 LEVEL = "model_checking"
 H = "name d\nversion 1.0\n"
-GROUPS = [["a", "alpha"], ["e", "x1"], ["a", "b", "c"], ["a_1", "a", "alpha"], ["q0", "q1", "q2"], ["q1", "q10"], ["phi", "p", "ph"]]
-VALS = {"q1a": 0.9, "q2_0": -0.4, "pix": 1.7, "sqrt2": 0.2, "p0": 2.2, "a": 0.5, "alpha": -1.25, "b": 2.0, "c": 0.75, "e": 1.5, "x1": 3.0, "a_1": 0.1, "phi": 0.3, "p": 1.1, "ph": -0.7, "n": 2.5}
+GROUPS = [["r", "r1", "r12"], ["a", "alpha"], ["e", "x1"], ["a", "b", "c"], ["a_1", "a", "alpha"], ["q0", "q1", "q2"], ["q1", "q10"], ["phi", "p", "ph"]]
+VALS = {"q1a": 0.9, "q2_0": -0.4, "pix": 1.7, "sqrt2": 0.2, "p0": 2.2, "a": 0.5, "alpha": -1.25, "b": 2.0, "c": 0.75, "e": 1.5, "x1": 3.0, "a_1": 0.1, "phi": 0.3, "p": 1.1, "ph": -0.7, "n": 2.5, "phi_b": 0.8, "r": 1.4, "r1": -0.6, "r12": 2.1}
 
 
 def menu(d):
@@ -36,6 +36,9 @@ def menu(d):
     M["lookalike-names"] = H + "\nG({q1a}-{a}, {q2_0}*{pix}) | 0\nH(k={sqrt2}+{p0}) | 1\n"
     M["kw-params"] = H + "\nG(1, k={a}-{b}, l=[1, 2]) | 0\n"
     M["three-registers"] = H + "\nMeasureX | 0\nMeasureX | 1\nMeasureX | 2\nG(q1-q0*q2, q0/q2) | 3\n"
+    M["regs-cross-terms"] = H + "\nMeasureX | 0\nG(q0*q1 + 0.5*q0 + 2*q1, k=q1*q2 - q2 + 3*q1) | 3\nH(q2*q0*q1 - q0 + q1*4) | 4\n"
+    M["string-p-names"] = H + "\nG(\"p1\", tag=\"p20\", l=[\"p0\", \"q0\"]) | 0\n"
+    M["prefix-names-2"] = H + "\nG({phi}/{phi_b}, 2*{r1}-{r}) | 0\nH(k={r}*{r1}*{r12}) | 1\n"
     M["regs-q1-q10"] = H + "\nG(q10-2*q1, k=q1/q10) | 0\n"
     M["params-and-regs"] = H + "\nG({a}+{alpha}, q1-q0) | 0\nH({b}) | [1, 0]\n"
     M["array-params"] = H + "\nfloat array A =\n    {a}, 1\n    {alpha}, {b}\nG({a}) | 0\n"
